@@ -12,10 +12,22 @@ Oracle : independent column expansion (each character owns columns [x, x+w)): wi
 import itertools
 
 from mc import cells as C
+from mc import repeat
 from mc.runner import Acc, Report
 
 LEVEL = "model_checking"
-W = {"a": 1, "Ｅ": 2, "̀": 0, "漢": 2, "b": 1}
+class _Widths(dict):
+    """Column widths beyond the small alphabet: East Asian wide / fullwidth = 2, combining marks = 0, everything else 1."""
+
+    def __missing__(self, c):
+        import unicodedata
+
+        w = 0 if unicodedata.combining(c) else (2 if unicodedata.east_asian_width(c) in ("W", "F") else 1)
+        self[c] = w
+        return w
+
+
+W = _Widths({"a": 1, "Ｅ": 2, "̀": 0, "漢": 2, "b": 1})
 
 
 def expected_slice(fc, a, b):
@@ -154,6 +166,69 @@ def check_value(acc, spec, how=None):
         acc.failure("C10:operand_changed", {"f": shown}, "")
 
 
+def shard_scale(args):
+    """Sizes far beyond small (cells.scale_specs): width, width_at_offset and width_aware_slice at ~20 column points (around the ends,
+    run boundaries, wide characters) in both nestings, on one object, plus a shuffled second pass."""
+    tier, seed, idx, nshards = args
+    acc = Acc(seed=seed, sample_stride=4999)
+    specs = C.scale_specs(tier == "thorough")
+    for si in range(idx, len(specs), nshards):
+        spec = specs[si]
+        f = C.build(spec)
+        fc = C.spec_cells(spec)
+        shown = {"scale_value": {"characters": len(fc), "runs": len(spec), "first_runs": C.show_spec(spec[:3])}}
+        widths = [W[c] for c, _ in fc]
+        total = sum(widths)
+        n = len(fc)
+        acc.case(True, key=("scale", si), sample=shown)
+        try:
+            if f.width != total:
+                acc.failure("C10:width", dict(shown, op="width"), "got %r expected %r" % (f.width, total))
+                continue
+        except Exception as ex:  # noqa
+            acc.failure("C10:width_raises:" + type(ex).__name__, shown, repr(ex))
+            continue
+        prefix = [0]
+        for w_ in widths:
+            prefix.append(prefix[-1] + w_)
+        cpts = sorted({p for p in (C.few_points(spec, 12)) if 0 <= p <= n})
+        for k in cpts + [n + 1]:
+            acc.transitions += 1
+            try:
+                got = f.width_at_offset(k)
+                if got != prefix[min(k, n)]:
+                    acc.failure("C10:width_at_offset", dict(shown, op="width_at_offset", n=k), "got %r expected %r" % (got, prefix[min(k, n)]))
+            except Exception as ex:  # noqa
+                acc.failure("C10:width_at_offset_raises:" + type(ex).__name__, dict(shown, n=k), repr(ex))
+        cols = sorted({prefix[p] for p in cpts} | {prefix[p] + 1 for p in cpts} | {0, 1, total - 1, total, total + 2, total // 2, 2500, 2501} )
+        cols = [c_ for c_ in cols if 0 <= c_ <= total + 2]
+        pairs = [(a, b) for a in cols for b in cols if a <= b]
+        results = {}
+        for a, b in pairs + pairs[::-3]:
+            case = dict(shown, op="width_aware_slice", a=a, b=b)
+            acc.case(True, key=("scale", si, a, b))
+            acc.transitions += 1
+            try:
+                r = f.width_aware_slice(slice(a, b))
+                gc = C.cells(r)
+                rw = r.width
+            except Exception as ex:  # noqa
+                acc.failure("C10:slice_raises:" + type(ex).__name__, case, repr(ex))
+                continue
+            want_w = max(0, min(b, total) - min(a, total))
+            got_w = sum(W[c] for c, _ in gc)
+            if got_w != want_w or rw != want_w:
+                acc.failure("C10:slice_width", case, "result of %d cells has width %r (reports %r), expected %r" % (len(gc), got_w, rw, want_w))
+                continue
+            why = match(gc, expected_slice(fc, a, b))
+            if why:
+                acc.failure("C10:slice_content:" + why, case, "got %r ..." % (gc[:12],))
+            elif (a, b) in results and results[(a, b)] != gc:
+                acc.failure("C10:slice_depends_on_earlier_slices", case, "")
+            results[(a, b)] = gc
+    return acc.export()
+
+
 def shard(args):
     tier, seed, idx, nshards = args
     acc = Acc(seed=seed, sample_stride=19997)
@@ -192,9 +267,12 @@ def shard(args):
 
 def run(ctx):
     rep = Report()
+    repeat.run_into(ctx, rep, "C10")
     ns = 128 if ctx.thorough else 32
     for d in ctx.pmap(shard, [(ctx.tier, ctx.seed, i, ns) for i in range(ns)]):
         rep.merge(d)
+    for d in ctx.pmap(shard_scale, [(ctx.tier, ctx.seed, i, 32) for i in range(32)]):
+        rep.merge(d, "scale_sweep")
     rep.validated = rep.n
     rep.rule = (
         "every string over {a, fullwidth E, combining grave%s} of length <= %d, every cut into <= 3 runs with empty runs (P3); width, "
